@@ -245,6 +245,15 @@ func runScenario(t *testing.T, sc *Scenario) (h *History) {
 				}
 				return ln.Offer(c, nil)
 			}
+			if cs.Stub != nil {
+				sh := &StubHistory{}
+				ch.Stub = sh
+				stubClass := 10 + 4*i + 3
+				offer = func(net.Conn) bool {
+					go runStub(srvEnd, cs.Stub, sh, srvTLS, stubClass)
+					return true
+				}
+			}
 			wg.Add(1)
 			if cs.Client != nil {
 				cd := &clientDriver{sc: cs, h: ch, raw: cliEnd, class: 12 + 4*i, tlsCfg: cliTLS, implicit: sc.Srv.TLS == tlsImplicit}
